@@ -161,6 +161,13 @@ def run(ctx):
                 k += 1
                 if ctx.mine(k) and (ctx.thorough or (y, x) == (0, 0) or k % 6 == 0):
                     fan_case(ctx, view, Position(y, x))
+        # corners and edge midpoints of larger (near-)square areas: the longest rays
+        big = [(7, 7), (8, 8), (9, 9), (7, 9), (9, 6)] + ([(11, 11), (12, 10), (13, 13)] if ctx.thorough else [])
+        for bi, (h, w) in enumerate(big):
+            for oi, (oy, ox) in enumerate([(0, 0), (0, w - 1), (h - 1, 0), (h - 1, w - 1), (0, w // 2), (h // 2, 0), (h - 1, w // 2)]):
+                if ctx.mine(bi * 7 + oi):
+                    fan_case(ctx, Area((0, h - 1), (0, w - 1)), Position(oy, ox))
+                    unobstructed(ctx, h, w, Position(oy, ox))
         if ctx.shard == 0:
             fan_case(ctx, Area((0, 6), (0, 6)), Position(6, 3))
             unobstructed(ctx, 7, 7, Position(6, 3))
